@@ -41,7 +41,7 @@ type refVal struct {
 
 // refCache: the run "in which no fault occurred" — the retry op alone on a fresh subscriber.
 type refCache struct {
-	wk *worker
+	wk runner
 	m  map[string]refVal
 }
 
@@ -52,6 +52,11 @@ func (r *refCache) get(h *Hist, op fd.Op) refVal {
 	}
 	clean := fd.Op{Mode: op.Mode, Addrs: op.Addrs, Head: op.Head, HookFail: -1}
 	out := r.wk.run(&Hist{Kind: h.Kind, Alive: h.Alive, Cfg: h.Cfg, Ops: []fd.Op{clean}})
+	if out.Crash != "" || len(out.Obs) == 0 {
+		v := refVal{}
+		r.m[key] = v
+		return v
+	}
 	o := out.Obs[0]
 	v := refVal{latest: o.Latest, store: o.Store, ok: !opFailed(clean, o)}
 	r.m[key] = v
@@ -183,10 +188,10 @@ func oracle(h *Hist, out Outcome, refs *refCache) (fails []oracleFail) {
 }
 
 // shrink drops ops and faults while the named oracle still fails.
-func shrink(wk *worker, refs *refCache, h *Hist, name string) *Hist {
+func shrink(wk runner, refs *refCache, h *Hist, name string) *Hist {
 	still := func(c *Hist) bool {
 		out := wk.run(c)
-		if out.Unstable {
+		if out.Unstable || out.Crash != "" {
 			return false
 		}
 		for _, f := range oracle(c, out, refs) {
